@@ -179,6 +179,9 @@ theorem apply_over_existing (s : St) (m : Manifest) (frm : Option String) (live 
     (hgo : applyDecision s m = .go frm) (hget : s.get m.id = some (some live)) :
     s.run.opts.policy = 2 ∨ canApply live.owner s.run.opts.policy = true := by
   unfold applyDecision at hgo
+  by_cases hinfo : m.id.kind ∈ s.run.failInfo
+  · simp [hinfo] at hgo
+  rw [if_neg hinfo] at hgo
   by_cases hp : s.run.opts.policy = 2
   · exact Or.inl hp
   · right
